@@ -3,6 +3,7 @@
 import atexit
 import itertools
 import os
+import re
 import shutil
 import tempfile
 
@@ -30,6 +31,9 @@ def rm(*paths):
             pass
 
 
+_NONFINITE = re.compile(r"(?<![A-Za-z0-9_.])[-+]?(?:nan|inf|infinity)(?![A-Za-z0-9_.])", re.I)
+
+
 def write_outcome(mesh, path, debug_path=None, nblocks=None):
     """-> ("success" | exception class name | "Budget", exception or None). Runs the real Mesh.write under a
     logical step budget on Block.copy_grading (termination is decided on steps, never on wall clock)."""
@@ -53,6 +57,15 @@ def write_outcome(mesh, path, debug_path=None, nblocks=None):
         return "Budget", err
     except Exception as err:  # noqa: BLE001
         return type(err).__name__, err
+    # a file with nan / inf in it is no dictionary blockMesh can read; numeric oracles downstream compare with `<=`
+    # and would treat nan as "no difference found", so this is decided here, once, for every check that writes
+    try:
+        with open(path) as fh:
+            m = _NONFINITE.search(fh.read())
+    except OSError:
+        m = None
+    if m:
+        return "NonFiniteNumberWritten", ValueError(f"the written file contains {m.group(0).strip()!r}")
     return "success", None
 
 
